@@ -843,18 +843,8 @@ fn run_prog(sh: &Arc<Shared>, t: usize, arena: &'static Arena, prog: &[POp], clo
             st.classes.insert("owned-buffer-received");
         }
     }
-    // what this thread still holds (and, for thread 0, what the pre-history left behind) must be intact:
-    // the owner's last look before its arena value goes away
-    let mine: Vec<LiveInfo> = {
-        let st = lock(sh);
-        st.live.iter().filter(|l| l.tid == t || (t == 0 && l.tid == MAIN)).map(|l| LiveInfo { id: l.id, off: l.off, cap: l.cap }).collect()
-    };
-    let held_owned: Vec<u32> = hs.iter().filter(|h| h.owned).map(|h| h.info.id).collect();
-    for info in &mine {
-        if !held_owned.contains(&info.id) {
-            release_check(sh, t, info);
-        }
-    }
+    // what this thread still holds stays handed out (and in the shadow map) for as long as the arena
+    // lives: "threads may keep allocations for ever". Only the handle objects go away here.
     for th in hs.drain(..) {
         if let Some(mut o) = th.obj {
             if th.owned {
@@ -890,6 +880,31 @@ fn release_check(sh: &Arc<Shared>, t: usize, info: &LiveInfo) {
     }
     if let Some(r) = st.race.on_read(t, l.off, l.off + l.cap, false, "owner's last read") {
         st.fail(viol!("C12", "race/owner-read", "{r}"));
+        sh.cv.notify_all();
+        drop(st);
+        unwind_abort();
+    }
+}
+
+/// Whoever is about to drop the last arena value verifies, while the memory still exists, that every range
+/// still handed out (kept for ever by some thread, or left by the pre-history) holds its bytes.
+fn final_verify_if_last(sh: &Arc<Shared>) {
+    let mut st = lock(sh);
+    if st.holders != 1 || st.freed {
+        return;
+    }
+    let mem = st.mem().to_vec();
+    let mut bad = None;
+    for l in &st.live {
+        if mem[l.off..l.off + l.cap] != l.expect[..] {
+            let p = (0..l.cap).find(|i| mem[l.off + i] != l.expect[*i]).unwrap_or(0);
+            bad = Some(viol!("C02", "bytes-changed", "range #{} [{}, {}) (kept by thread {}) does not hold its bytes at the end of the run: byte +{p} {:#x} -> {:#x}", l.id, l.off, l.off + l.cap, if l.tid == MAIN { -1 } else { l.tid as i64 }, l.expect[p], mem[l.off + p]));
+            break;
+        }
+    }
+    st.classes.insert("final-verification-done");
+    if let Some(v) = bad {
+        st.fail(v);
         sh.cv.notify_all();
         drop(st);
         unwind_abort();
@@ -1070,6 +1085,7 @@ fn run_case_b_inner(case: &CaseB, o: &OptsB) -> RunB {
                         st.last_op[t] = "drop of the thread's arena value".into();
                         st.op_steps[t] = 0;
                     }
+                    final_verify_if_last(&sh2);
                     drop(clone.take());
                     lock(&sh2).holders -= 1;
                 }))
@@ -1129,6 +1145,17 @@ fn run_case_b_inner(case: &CaseB, o: &OptsB) -> RunB {
     if !aborted {
         let leftovers: Vec<(SendBox, LiveInfo, Vec<u32>)> = lock(&sh).mailbox.iter_mut().flat_map(|m| m.drain(..)).collect();
         if !leftovers.is_empty() {
+            {
+                // main is the last holder's dropper: verify while the memory exists
+                let mut st = lock(&sh);
+                if !st.freed {
+                    let mem = st.mem().to_vec();
+                    let bad = st.live.iter().find(|l| mem[l.off..l.off + l.cap] != l.expect[..]).map(|l| (l.id, l.off, l.cap));
+                    if let Some((id, off, cap)) = bad {
+                        st.fail(viol!("C02", "bytes-changed", "range #{id} [{off}, {}) does not hold its bytes at the end of the run", off + cap));
+                    }
+                }
+            }
             let sh3 = sh.clone();
             verif::set_hook(Some(Box::new(move |e: &Event| {
                 if e.kind == Kind::Unmount {
